@@ -37,9 +37,9 @@ CHECKS = {
    design="4 (C08)"),
  "C09": dict(
    engine="history",
-   technique="deterministic simulation: seeded call histories on one ExtendedNonlocalGame object with OS-entropy seam for the see-saw; eigenvalue-enumeration and NPA/LP reference models after every step",
-   text="Seeded search over entropy values for the randomised see-saw lower bound and over call orders on one extended-game object: every lower bound and the unentangled value must stay below every NPA bound and the non-signaling value, values must not depend on call order. Hedging and cloning clauses are not checked (deterministic SDPs sharing nothing with the simulated histories).",
-   note=TRUST + "; QuantumHedging and optimal_clone clauses are not covered; the see-saw only runs when referee dimension equals Bob's answer count",
+   technique="deterministic simulation: seeded call histories on one ExtendedNonlocalGame object (OS-entropy seam for the see-saw) and on one QuantumHedging object, with a second same-shape object used in between; eigenvalue-enumeration, NPA/LP and own primal/dual reference models after every step",
+   text="Seeded search over entropy values for the randomised see-saw lower bound and over call orders on one extended-game object (every lower bound and the unentangled value stay below every NPA bound and the non-signaling value; values do not depend on call order), and over call orders of the four value methods of one QuantumHedging object (object unchanged, primal = dual, max >= min, agreement with an own primal/dual pair, two repetitions consistent with the single shot). The cloning clauses are not checked (optimal_clone is a deterministic SDP of its arguments with no object, state or seam).",
+   note=TRUST + "; optimal_clone clauses are not covered; the see-saw only runs when referee dimension equals Bob's answer count; hedging closed forms (3/4, cos^2(pi/8)) are covered only through the own primal/dual model on the Molina-Watrous family",
    design="4 (C09)"),
  "C12": dict(
    engine="history",
